@@ -1,6 +1,7 @@
 import TexelVerif.Drv.TT
 import TexelVerif.Drv.Chess
 import TexelVerif.Drv.Uci
+import TexelVerif.Drv.Mate
 /-! Line-protocol driver: one operation per stdin line, one canonical reply line.
     Imports model files only (no proofs, no Mathlib), so it links as a `lean_exe`. -/
 
@@ -13,6 +14,7 @@ def dispatch (st : DrvState) (line : String) : DrvState × String :=
   | "tt" :: args => let (t, o) := Drv.TT.step st.tt args; ({ st with tt := t }, o)
   | "chess" :: args => (st, Drv.Chess.step args)
   | "uci" :: args => (st, Drv.Uci.step args)
+  | "mate" :: args => (st, Drv.Mate.step args)
   | _ => (st, "bad-op")
 
 partial def loop (h : IO.FS.Stream) (out : IO.FS.Stream) (st : DrvState) : IO Unit := do
